@@ -183,8 +183,11 @@ impl Generator {
             Get | BinGet | LongBinGet => !self.state.memo.is_empty(),
 
             // PUT operations - need something to memoize (and not MARK)
+            // BINPUT carries a one-byte index: once the memo holds 256 entries the next index no
+            // longer fits and would wrap around to an index that is already defined
             Put | BinPut | LongBinPut | Memoize => {
-                self.state.stack.len() >= 1
+                (opcode != BinPut || self.state.memo.len() < 256)
+                    && self.state.stack.len() >= 1
                     && self
                         .peek()
                         .is_some_and(|obj| !matches!(*obj.borrow(), StackObject::Mark))
